@@ -56,6 +56,16 @@ def check(ctx):
                construct="unit conversion", loc=loc(fi, fi.node), message=f"dimension error: {e}",
                consequence="pint raises DimensionalityError at run time, or a scale carries the wrong dimension")
         return
+    # the solver converts into the user's units, never into a spelled-out one: a literal unit in a `.to(...)` of the constructor
+    # special-cases one unit system (R08.1: the scale is then right for that system only)
+    for n_ in own_nodes(fi.node):
+        if isinstance(n_, ast.Call) and isinstance(n_.func, ast.Attribute) and n_.func.attr == "to" and n_.args \
+                and isinstance(n_.args[0], ast.Constant) and isinstance(n_.args[0].value, str) and n_.args[0].value.strip() not in ("", "dimensionless"):
+            ctx.ob("R08.1", f"TDGLSolver.__init__: `{norm(n_)[:70]}` converts into the user's units", False, where=fi.fq, loc=loc(fi, n_),
+                   construct=f"literal unit in {norm(n_)[:60]}",
+                   message=f"`{norm(n_)[:90]}` converts into the literal unit {n_.args[0].value!r} instead of the device's / options' units",
+                   consequence="the scale is right only when the user's units happen to be the spelled-out ones: the same problem stated in other units "
+                               "gets another dimensionless solution")
     P = phys(ip)
     # a scale the lenient evaluation could not compute (an idiom outside the unit model) is not a wrong scale: say so
     for nm_ in ("A_scale", "areas", "sites", "edge_centers"):
